@@ -13,7 +13,7 @@ use serde_json::{json, Value};
 use std::collections::{BTreeMap, HashSet};
 
 pub const PATHS: &[&str] = &["/a", "/A", "/a b", "/a%20b", "/é", "/a\"q", "/a<b>", "/a+b"];
-pub const PARAMS: &[&str] = &["a=1", "b=2", "a=3", "c=", "d", "e=x%20y", "f=x+y", "g=é", "utm_source=z", "ref=r", "B=2", "h=1%2B2", "i=x%26"];
+pub const PARAMS: &[&str] = &["a=1", "b=2", "a=3", "c=", "d", "e=x%20y", "f=x+y", "g=é", "utm_source=z", "ref=r", "B=2", "h=1%2B2", "i=x%26", "é=1", "z=9"];
 
 #[derive(Clone, Debug, serde::Serialize, serde::Deserialize)]
 pub struct Case {
